@@ -195,7 +195,8 @@ RefStep(r, e) ==
          IF r.phase # "end" THEN RFail(r, "structure")
          ELSE IF r.pend # {} THEN RFail(r, "marker")
          ELSE [r EXCEPT !.st = "done"]
-    [] m \in {"OnPadding", "OnComment"} -> r
+    [] m = "OnPadding" -> r
+    [] m = "OnComment" -> IF e.cmtok THEN r ELSE RFail(r, "array")
     [] m = "OnNull" -> Scalar(r, "null", <<>>)
     [] m \in RKeyMethods -> IF e.sp = "nil" THEN Scalar(r, "null", <<>>)
                             ELSE Scalar(r, "key", <<e.dt, e.k, <<>> >>)
